@@ -16,7 +16,7 @@ static const bool SAN = true;
 static const bool SAN = false;
 #endif
 struct Buf {
-    void *base = nullptr; size_t maplen = 0; char *p = nullptr; size_t bytes = 0;
+    void *base = nullptr; size_t maplen = 0; char *p = nullptr; size_t bytes = 0; bool sparse = false;
     Buf() {}
     explicit Buf(size_t nbytes, size_t slack_before_guard = 0) { alloc(nbytes, slack_before_guard); }
     Buf(const Buf &) = delete; Buf &operator=(const Buf &) = delete;
@@ -24,10 +24,11 @@ struct Buf {
     {
         release();
         bytes = nbytes;
-        if (SAN) { base = malloc(nbytes ? nbytes : 1); p = (char *)base; maplen = 0; return; }
+        sparse = nbytes >= ((size_t)1 << 26);   // huge extents (strides >= 2^32): a sparse MAP_NORESERVE mapping, only touched pages exist
+        if (SAN && !sparse) { base = malloc(nbytes ? nbytes : 1); p = (char *)base; maplen = 0; return; }
         size_t pg = (size_t)sysconf(_SC_PAGESIZE);
         size_t len = ((nbytes + slack + pg - 1) / pg) * pg; if (len == 0) len = pg;
-        base = mmap(nullptr, len + pg, PROT_READ | PROT_WRITE, MAP_PRIVATE | MAP_ANONYMOUS, -1, 0);
+        base = mmap(nullptr, len + pg, PROT_READ | PROT_WRITE, MAP_PRIVATE | MAP_ANONYMOUS | (sparse ? MAP_NORESERVE : 0), -1, 0);
         if (base == MAP_FAILED) { base = nullptr; abort(); }
         mprotect((char *)base + len, pg, PROT_NONE);
         maplen = len + pg;
@@ -36,7 +37,7 @@ struct Buf {
     void release()
     {
         if (!base) return;
-        if (SAN) free(base); else munmap(base, maplen);
+        if (maplen == 0) free(base); else munmap(base, maplen);
         base = nullptr; p = nullptr;
     }
     ~Buf() { release(); }
